@@ -26,9 +26,10 @@ class InjectedFault(OSError):
 
 
 class Ledger:
-    def __init__(self, prefix, fail_at=None):
+    def __init__(self, prefix, fail_at=None, sticky=False):
         self.prefix = os.path.abspath(prefix) + os.sep
         self.fail_at = fail_at
+        self.sticky = sticky          # a persistent device error: every operation after the k-th (flush included) fails too
         self.ops = 0
         self.trace = []
         self.opened = []          # FileProxy objects created while active
@@ -46,9 +47,13 @@ class Ledger:
         self.ops += 1
         if len(self.trace) < 4000:
             self.trace.append(name)
-        if self.fail_at is not None and self.ops == self.fail_at:
+        if self.fail_at is not None and (self.ops == self.fail_at or (self.sticky and self.fired)):
             self.fired = True
             raise InjectedFault(errno.EIO, "injected I/O fault at operation #%d (%s)" % (self.ops, name))
+
+    def flush_op(self):
+        if self.sticky and self.fired:
+            raise InjectedFault(errno.ENOSPC, "injected persistent I/O fault (flush after operation #%d failed)" % self.fail_at)
 
     def unclosed(self):
         return [p for p in self.opened if not p.real.closed]
@@ -109,6 +114,7 @@ class FileProxy:
         return self.real.close()
 
     def flush(self):
+        self._ledger.flush_op()
         return self.real.flush()
 
     @property
